@@ -48,7 +48,7 @@ func (c *Case) overlapClass(o order) string {
 	for j := 1; j < len(seq); j++ {
 		for i := 0; i < j; i++ {
 			a, b := seq[i], seq[j]
-			if !overlaps(a.Path, b.Path) {
+			if !overlapsIn(c.Tgt, a.Path, b.Path) {
 				continue
 			}
 			via := ""
@@ -78,10 +78,13 @@ func (c *Case) overlapRelation(o order) string {
 	for j := 1; j < len(seq); j++ {
 		for i := 0; i < j; i++ {
 			a, b := seq[i], seq[j]
-			if !overlaps(a.Path, b.Path) {
+			if !overlapsIn(c.Tgt, a.Path, b.Path) {
 				continue
 			}
 			switch {
+			case aliased(c.Tgt, a.Path, b.Path):
+				// the two paths are spelled differently but denote the same position or nested positions
+				return "same-position-through-promoted-field-name-and-embedded-field"
 			case b.Kind == "whole-input":
 				return "whole-input-declared-after-field-mapping"
 			case a.Kind == "whole-input":
@@ -363,6 +366,25 @@ func runCase(ctx context.Context, rep *mon.Reporter, rng *mon.Rand, c *Case, idx
 	if c.Hazard != "" {
 		rep.Count("hostile/"+c.Hazard, 1)
 	}
+	if sk := c.skipClass(); sk != "" {
+		rep.Count("sets_run_with/"+sk, 1)
+	} else if c.Gate != nil {
+		rep.Count("sets_run_with/a-branch-that-selects-every-gated-predecessor", 1)
+	}
+	if c.SuccInv {
+		rep.Count("sets_run_with/invoke-only-successor", 1)
+	}
+	for _, m := range c.Maps {
+		if strings.Contains(m.src.Shape, "E") {
+			rep.Count("mappings_run/source-field-promoted-from-an-embedded-struct", 1)
+		}
+		if strings.Contains(m.tgt.Shape, "E") {
+			rep.Count("mappings_run/target-field-promoted-from-an-embedded-struct", 1)
+		}
+		if len(m.To) == 0 && c.Tgt != tString {
+			rep.Count("mappings_run/whole-input-of-a-container-type-from-one-source-position", 1)
+		}
+	}
 	if c.Struct != "" {
 		rep.Count("structure/"+c.Struct, 1)
 	}
@@ -412,20 +434,50 @@ func runCase(ctx context.Context, rep *mon.Reporter, rng *mon.Rand, c *Case, idx
 			api int
 		}
 		plan := []srun{{sels[0], 1}, {sels[0], 1}, {sels[0], 0}, {sels[1], 0}, {sels[2], 0}, {sels[2], 0}}
+		if c.SuccInv {
+			// the successor needs one assembled value: only runs in which every predecessor emits its output as one
+			// chunk (concatenating the chunks of a user's stream is not the subject here)
+			plan = []srun{{sels[0], 1}, {sels[0], 1}, {sels[0], 0}, {sels[0], 2}}
+		} else if c.SuccEnd {
+			plan = append(plan, srun{sels[0], 2})
+		} else {
+			plan = append(plan, srun{sels[rng.Intn(3)], 2})
+		}
 		keys := map[string][]string{}
 		var full outcome
 		for i, sr := range plan {
+			// assembled: the framework has to make ONE value of the successor's input type out of the chunks
+			assembled := c.SuccInv || (sr.api == 2 && c.SuccEnd)
 			expS := c.expectStream(sr.sel)
+			parts := expS.Chunks
+			if assembled {
+				expS = c.expectInvoke()
+			}
 			out := c.runStream(ctx, b, sr.sel, sr.api)
 			streamRuns++
 			if i == 0 {
 				full = out
+			}
+			if assembled {
+				rep.Count("stream_runs_in_which_one_input_value_is_assembled", 1)
+				if out.Kind == "error" && c.invokeOK && !expS.May && !expS.Must && structMergeNeeded(parts) {
+					// Invoke delivers the value; the streaming run cannot put the partial structs together
+					rep.Violation("C15/invoke-stream-differ/struct-typed-input-assembled-from-several-stream-chunks",
+						fmt.Sprintf("Invoke hands the successor %s; the streaming run (%s) of the same compiled workflow on the same input fails: %s\nthe successor input is assembled from the partial values %s",
+							expS.key(), []string{"Transform", "Stream", "Collect"}[sr.api], short(out.Err, 500), treesString(parts)),
+						c.witness(ordStr, "stream"))
+					conform = false
+					continue
+				}
 			}
 			if !c.judge(rep, "stream", ordStr+fmt.Sprintf(" ; chunking %v", sr.sel), expS, out) {
 				conform = false
 			}
 			c.checkSnap(rep, snap, "stream", ordStr)
 			ks := fmt.Sprint(sr.sel)
+			if sr.api == 2 && c.SuccEnd {
+				ks += "collect" // one assembled value, not the chunks
+			}
 			keys[ks] = append(keys[ks], out.key())
 			if out.Kind == "value" {
 				rep.Count("stream_chunks_compared", int64(len(out.Chunks)))
@@ -438,6 +490,14 @@ func runCase(ctx context.Context, rep *mon.Reporter, rng *mon.Rand, c *Case, idx
 					break
 				}
 			}
+		}
+		// Invoke against stream: both deliver or both fail (the streaming run with every output as a single chunk)
+		if (invOut.Kind == "error") != (full.Kind == "error") && invOut.Kind != "panic" && full.Kind != "panic" && (expI.May || expI.Must) {
+			rep.Violation("C15/invoke-stream-differ/"+modeDiffClass(expI),
+				fmt.Sprintf("the same compiled workflow on the same input: Invoke -> %s, Stream -> %s\nreference: %s", short(invOut.label()+" "+invOut.Err, 400), short(full.label()+" "+full.Err, 400), expI.describe()),
+				c.witness(ordStr, ""))
+		} else if expI.May || expI.Must {
+			rep.Count("invoke_and_stream_agree_where_no_value_is_due", 1)
 		}
 		// Invoke against stream: overlay the chunks the successor received
 		if invOut.Kind == "value" && full.Kind == "value" && !expI.May && !expI.Must && len(invOut.Chunks) == 1 {
@@ -496,6 +556,12 @@ func (c *Case) attribute(mode string, e *expectation, o *outcome) string {
 	refClass := ""
 	if e != nil && (e.May || e.Must) {
 		refClass = e.Class
+	}
+	if sk := c.skipClass(); sk != "" && o != nil && o.Kind != "value" {
+		// a branch skipped predecessors of the successor: when none of them ran no source value is even looked at
+		if sk == "all-mapped-predecessors-skipped-by-a-branch" || (refClass == "" && c.Struct == "") {
+			return sk
+		}
 	}
 	site := ""
 	if o != nil && o.Kind == "panic" {
@@ -770,4 +836,67 @@ func (c *Case) consequences(ctx context.Context, b *built, before *snapshot) str
 		}
 	}
 	return strings.Join(parts, " | ")
+}
+
+// modeDiffClass names an Invoke/Stream difference on an input for which no value is due: an absent
+// map key has one name wherever on the source path it is met.
+func modeDiffClass(e *expectation) string {
+	absent := true
+	for k := range e.All {
+		if !strings.Contains(k, "absent-map-key") && !strings.Contains(k, "map-without-the-key") {
+			absent = false
+		}
+	}
+	if absent && len(e.All) > 0 {
+		return "absent-source-map-key"
+	}
+	return e.Class
+}
+
+// structMergeNeeded: putting the partial values together means merging two non-zero struct
+// values (or two non-nil pointers) that sit at the same position.
+func structMergeNeeded(parts []*tree) bool {
+	var merged *tree
+	need := false
+	for _, p := range parts {
+		if p.empty() {
+			continue
+		}
+		if merged == nil {
+			merged = p
+			continue
+		}
+		need = need || mergeNeedsStruct(merged, p)
+		merged, _ = mergeTrees(merged, p)
+	}
+	return need
+}
+
+func mergeNeedsStruct(a, b *tree) bool {
+	if a == nil || b == nil || a.zero() || b.zero() || a.K != b.K {
+		return false
+	}
+	switch a.K {
+	case "struct", "ptr":
+		return true
+	case "map":
+		for k, av := range a.Kids {
+			if bv, ok := b.Kids[k]; ok && mergeNeedsStruct(av, bv) {
+				return true
+			}
+		}
+	case "iface":
+		return mergeNeedsStruct(a.Elem, b.Elem)
+	}
+	return false
+}
+
+func treesString(ts []*tree) string {
+	var ss []string
+	for _, t := range ts {
+		if !t.empty() {
+			ss = append(ss, t.String())
+		}
+	}
+	return strings.Join(ss, " || ")
 }
